@@ -15,6 +15,8 @@ Property oracle (model independent, evaluated on the real code):
   routes     item assignment, update, constructor and (for text) a
              configuration file agree
   reject     unknown keys, "" and None: a warning, nothing stored, no error
+  saveload   Configuration.save + load returns the stored value for text
+             the .cfg syntax can carry (incl. "=", ":", "[", "]", commas)
   roundtrip  what RTDCWriter.store_metadata wrote is read back (parse_config,
              new_dataset, export.hdf5, dclab-compress) equal to the value
              normalised by Configuration, with a documented type
@@ -34,7 +36,8 @@ RULE = ("keys: every (section, key) of the generated table, online_filter / "
         "(str incl. numeric/bool/list text, bytes, int, float incl. nan/inf, "
         "bool, None, numpy scalars, lists/tuples, nested lists, numpy arrays "
         "of ndim 0-2) plus random ones; routes: assignment/update/constructor,"
-        " configuration file, store_metadata+parse_config, re-assignment. "
+        " configuration file line (values with = : [ ] # quotes blanks), "
+        "save+load, store_metadata+parse_config, re-assignment. "
         "Quick tier: for the assignment route the full list of values for "
         "one key of every (section, converter) class and 30+6 sampled values "
         "for every other key, random samples of the product for the other "
@@ -521,6 +524,80 @@ def impl_route3(case, val):
     return enc_obs(o)
 
 
+SAVE_LOAD_CONVS = ("str", "lcstr", "float", "fint", "fbool", "fintlist",
+                   "fboolorfloat")
+
+
+def impl_route4(case, val, scratch, idx):
+    """assignment, Configuration.save, Configuration(files=[...])"""
+    from dclab import definitions as dfn
+    from dclab.rtdc_dataset.config import Configuration, load_from_file
+    sec, key = case["sec"], case["key"]
+    lk = key.lower()
+    how = "item" if section_known(sec) else "update"
+    fails = []
+    with warnings.catch_warnings(record=True) as wl:
+        warnings.simplefilter("always")
+        try:
+            c = Configuration()
+            if sec in c:
+                c[sec].pop(lk, None)
+            if how == "item":
+                c[sec][key] = val
+            else:
+                c.update({sec: {key: val}})
+            stored = c[sec].get(lk, ABSENT) if sec in c else ABSENT
+        except Exception as e:
+            return e_exc(e), fails
+        if warn_codes(wl) or stored is ABSENT:
+            return [97], fails
+    path = os.path.join(scratch, "r4_%d.cfg" % idx)
+    lk2 = lk.strip()
+    with warnings.catch_warnings(record=True) as wl:
+        warnings.simplefilter("always")
+        try:
+            c.save(path)
+            c2 = Configuration()
+            if sec in c2:
+                c2[sec].pop(lk2, None)
+            c2.update(load_from_file(path))
+            got = c2[sec].get(lk2, ABSENT) if sec in c2 else ABSENT
+            obs = ("ok", got, warn_codes(wl))
+            if sec != "filtering":
+                c3 = Configuration(files=[path])
+                g3 = c3[sec].get(lk2, ABSENT) if sec in c3 else ABSENT
+                if (g3 is ABSENT) != (got is ABSENT) or (
+                        g3 is not ABSENT and not same_type_equal(g3, got)):
+                    fails.append(("routes", "Configuration(files=) gives %s,"
+                                  " update(load_from_file()) gives %s" % (
+                                      short(g3), short(got))))
+        except Exception as e:
+            obs = ("exc", e, warn_codes(wl))
+    if os.path.exists(path):
+        os.remove(path)
+    # oracle: values whose text the syntax can carry come back unchanged
+    f = dfn.get_config_value_func(sec, lk)
+    fname = getattr(f, "__name__", "")
+    claimed = False
+    if isinstance(stored, str):
+        claimed = cfg_safe_text(stored) and (
+            fname in ("str", "lcstr") or sec == "user")
+    elif fname in SAVE_LOAD_CONVS and lk == lk2:
+        claimed = not (fname == "fboolorfloat" and
+                       not isinstance(stored, bool))
+    if claimed:
+        if obs[0] == "exc":
+            fails.append(("saveload", "stored %s; loading the saved file "
+                          "raises %r" % (short(stored), obs[1])))
+        elif obs[1] is ABSENT:
+            fails.append(("saveload", "stored %s; absent after save and load"
+                          " (warnings %s)" % (short(stored), obs[2])))
+        elif not same_type_equal(stored, obs[1]):
+            fails.append(("saveload", "stored %s; after save and load %s" % (
+                short(stored), short(obs[1]))))
+    return enc_obs(obs), fails
+
+
 def impl_route1(case, scratch, idx):
     """configuration file with the single entry `key = text`"""
     from dclab.rtdc_dataset.config import Configuration
@@ -546,7 +623,8 @@ def impl_route1(case, scratch, idx):
     # the text assigned directly must give the same result (when the file
     # syntax does not alter it)
     val = text.strip().strip("' ").strip('" ').strip()
-    if val == text and key == lk and section_known(sec) and val:
+    if val == text and "#" not in text and key == lk and \
+            section_known(sec) and val:
         from dclab import definitions as dfn
         try:
             known = dfn.config_key_exists(sec, lk)
@@ -668,7 +746,13 @@ def fixed_values():
               "Infinity", "abc", "Channel", "CellCarrier B", "0.49% MC-PBS",
               "µm x", "", " ", "[1, 2]", "[0, 1]", "[0]", "[]", "1,2",
               "0,0", "1,,2", "[1.5, 0]", "[1, abc]", "(1.0, 2.0)", "y", "n",
-              "deform", "1 2", "e5", "1e", "--1", "1.2.3", "a:b"]:
+              "deform", "1 2", "e5", "1e", "--1", "1.2.3", "a:b",
+              # characters that are structural in the .cfg syntax
+              "thresh:t=-6:cle=1^f=1^clo=2", "dilution c=0.5 mg/mL", "a = b",
+              "=", "x=", "=y", "a==b", "k = v = w", "[sec]", "[a = b]",
+              "a # b", "#", "c=1 # d=2", "'quoted'", '"dq"', "it's", "'",
+              '"a" = "b"', " lead", "trail ", " = ", "a,b = c", "k: v=1",
+              "x=[1, 2]", "1=1", "true=false"]:
         vals.append(S(s))
     for s in ["1", "0", "true", "abc", "Channel", "", "1.5", "[1, 2]"]:
         vals.append(B(s))
@@ -854,8 +938,22 @@ def key_ok_for_model(sec, key):
     return all(32 <= ord(c) < 127 for c in sec + key)
 
 
-def val_ok_for_file(text):
+def key_ok_for_file(text):
+    """keys that the .cfg syntax can express"""
     return all(c not in text for c in "#\n\t\r=") and text == text.strip()
+
+
+def val_ok_for_file(text):
+    """text that can stand right of "=" on one line (every character that is
+    structural in the syntax is allowed: = : [ ] # quotes blanks commas)"""
+    return all(c not in text for c in "\n\t\r\x0b\x0c")
+
+
+def cfg_safe_text(s):
+    """strings that the .cfg syntax can represent literally: no comment
+    character, no newline, no leading/trailing blanks or quotes"""
+    return (len(s) > 0 and all(c not in s for c in "#\n\r")
+            and s == s.strip().strip("' ").strip('" ').strip())
 
 
 def render_case(route, sec, key, vspec):
@@ -901,6 +999,8 @@ def run_one(case, scratch, idx):
         return impl_route2(case, val, scratch, idx)
     if route == 3:
         return impl_route3(case, val), []
+    if route == 4:
+        return impl_route4(case, val, scratch, idx)
     raise ValueError(route)
 
 
@@ -934,22 +1034,31 @@ def make_cases(run):
     strs = [v for v in fixed + rand_vals if v[0] == "str"
             and val_ok_for_file(v[1])]
     r1 = [(s, k, c, v) for (s, k, c) in keys for v in strs
-          if val_ok_for_file(k) and k and not k.startswith("[")]
+          if key_ok_for_file(k) and k and not k.startswith("[")]
     # route 2 (rtdc file): metadata sections and user
     r2 = [(s, k, c, v) for (s, k, c) in keys for v in fixed + rand_vals
           if (s in dfn.CFG_METADATA or s == "user") and s != "fmt_tdms"
           and (s, k.lower()) not in RECTIFIED and k.strip()]
     r3 = [(s, k, c, v) for (s, k, c) in keys for v in fixed + rand_vals
           if c != "bad"]
+    # route 4 (save + load): string values for every key, all values for a
+    # third of the keys
+    r4 = [(s, k, c, v) for (s, k, c) in keys for v in fixed + rand_vals
+          if c != "bad" and key_ok_for_file(k) and k
+          and (v[0] != "str" or val_ok_for_file(v[1]))]
     if not run.thorough:
         r1 = rng.sample(r1, min(len(r1), 1200))
         r2 = rng.sample(r2, min(len(r2), 1000))
         r3 = rng.sample(r3, min(len(r3), 800))
+        r4s = [x for x in r4 if x[3][0] == "str"]
+        r4 = rng.sample(r4s, min(len(r4s), 900)) + \
+            rng.sample(r4, min(len(r4), 500))
     else:
         r1 = rng.sample(r1, min(len(r1), 12000))
         r2 = rng.sample(r2, min(len(r2), 12000))
         r3 = rng.sample(r3, min(len(r3), 12000))
-    for route, lst in ((1, r1), (2, r2), (3, r3)):
+        r4 = rng.sample(r4, min(len(r4), 15000))
+    for route, lst in ((1, r1), (2, r2), (3, r3), (4, r4)):
         for s, k, c, v in lst:
             cases.append(dict(route=route, sec=s, key=k, val=v, cls=c))
     return cases
